@@ -1017,8 +1017,48 @@ def versionBlock (h : H5) : Option Bool :=
   | some (.str _) => some false
   | some _ => none
 
-/-- the checks that decide `valid_table` -/
-def checksH (dateOk : String → Bool) (h : H5) : List (Option Bool) :=
+/-- the `format_version` argument of `validate-table` / `_validate_table` for an HDF5 file -/
+inductive FV where
+  | default | v21 | v210 | v20 | v200
+  deriving Repr, DecidableEq
+
+/-- `kwargs['format_version'] in ['2.0', '2.0.0']`; every other accepted spelling (None, '2.1',
+    '2.1.0') takes the 2.1 branch -/
+def FV.two0 : FV → Bool
+  | .v20 => true
+  | .v200 => true
+  | _ => false
+
+/-- `_valid_hdf5_metadata_v200` for one axis: `json.loads(table[ax].get('metadata', ["[]"])[0])`.
+    Absent metadata parses; indexing a group raises TypeError; slicing a scalar dataset raises
+    ValueError, which is caught and reported; other datasets are outside the enumerated domain. -/
+def mdV200Axis (h : H5) (ax : String) : Option Bool :=
+  match h.get [ax] with
+  | some .group =>
+    (match h.get [ax, "metadata"] with
+     | none => some true
+     | some .group => none
+     | some (.ds none _) => some false
+     | some (.ds (some _) _) => none)
+  | _ => none
+
+def mdV200 (h : H5) : Option Bool :=
+  match mdV200Axis h "observation" with
+  | none => none
+  | some false => some false
+  | some true => mdV200Axis h "sample"
+
+/-- the version block when validation against 2.0 is requested -/
+def versionBlock20 (h : H5) : Option Bool :=
+  match h.attr "format-version" with
+  | none => some true
+  | some (.ints l) => if l == [2, 0] then mdV200 h else some false
+  | some (.reals _) => some false
+  | some (.str _) => some false
+  | some _ => none
+
+/-- the checks shared by every requested version -/
+def checksCommon (dateOk : String → Bool) (h : H5) : List (Option Bool) :=
   [ attrCheck h "format-url" hUrl,
     attrCheck h "format-version" hVersion,
     attrCheck h "type" hType,
@@ -1029,11 +1069,31 @@ def checksH (dateOk : String → Bool) (h : H5) : List (Option Bool) :=
     attrCheck h "creation-date" (hDate dateOk) ] ++
   coreGroups.map (fun p => some (h.has p)) ++
   requiredDatasets.map (fun p => some (h.has p)) ++
-  shapeBlock h ++ [versionBlock h]
+  shapeBlock h
+
+/-- the checks that decide `valid_table` (requested version 2.1: None, '2.1', '2.1.0') -/
+def checksH (dateOk : String → Bool) (h : H5) : List (Option Bool) :=
+  checksCommon dateOk h ++ [versionBlock h]
+
+/-- the same for a requested version 2.0 ('2.0', '2.0.0') -/
+def checksH20 (dateOk : String → Bool) (h : H5) : List (Option Bool) :=
+  checksCommon dateOk h ++ [versionBlock20 h]
 
 def validateH5 (dateOk : String → Bool) (h : H5) : Verdict3 := verdictOf (checksH dateOk h)
 
+def validateH5v20 (dateOk : String → Bool) (h : H5) : Verdict3 := verdictOf (checksH20 dateOk h)
+
+/-- `_validate_table(path, format_version)` on an HDF5 file -/
+def validateH5As (dateOk : String → Bool) (fv : FV) (h : H5) : Verdict3 :=
+  if fv.two0 then validateH5v20 dateOk h else validateH5 dateOk h
+
 def reportLinesH5 (dateOk : String → Bool) (h : H5) : Nat := reportLines (checksH dateOk h)
+
+/-- validating against 2.0 adds the line "WARNING: 2.0 is not actively supported!" -/
+def reportLinesH5As (dateOk : String → Bool) (fv : FV) (h : H5) : Nat :=
+  if fv.two0 then
+    reportLines (checksH20 dateOk h) + (if h.attr "format-version" == some (.ints [2, 0]) then 1 else 0)
+  else reportLinesH5 dateOk h
 
 /-! ### structural facts of an HDF5 tree -/
 
@@ -1125,12 +1185,28 @@ def uncheckedConjunctsH (h : H5) : List (String × Bool) :=
   [ ("indicesInRange", indicesB h), ("elementsTyped", typedHB h),
     ("idsNonEmpty", idsNonEmptyHB h), ("idsDistinct", idsDistinctHB h) ]
 
+def version20 (h : H5) : Bool := h.attr "format-version" == some (.ints [2, 0])
+
+/-- conjuncts enforced when validation against 2.0 is requested (2.0 metadata is optional) -/
+def checkedConjunctsH20 (h : H5) : List (String × Bool) :=
+  [ ("requiredAttrs", attrsB h), ("requiredGroups", coreGroupsB h),
+    ("requiredDatasets", datasetsB h), ("shape", shapeHB h), ("formatVersion20", version20 h) ]
+
 def checkedH (h : H5) : Bool := (checkedConjunctsH h).all (fun p => p.2)
+def checkedH20 (h : H5) : Bool := (checkedConjunctsH20 h).all (fun p => p.2)
+def checkedHAs (fv : FV) (h : H5) : Bool := if fv.two0 then checkedH20 h else checkedH h
 def structuralHB (h : H5) : Bool := checkedH h && (uncheckedConjunctsH h).all (fun p => p.2)
 def corruptH (h : H5) : Bool := !structuralHB h
+def corruptHAs (fv : FV) (h : H5) : Bool :=
+  !(checkedHAs fv h && (uncheckedConjunctsH h).all (fun p => p.2))
 
 def violatedH (h : H5) : List String :=
   (((checkedConjunctsH h) ++ (uncheckedConjunctsH h)).filter (fun p => !p.2)).map (fun p => p.1)
+
+def violatedHAs (fv : FV) (h : H5) : List String :=
+  if fv.two0 then
+    (((checkedConjunctsH20 h) ++ (uncheckedConjunctsH h)).filter (fun p => !p.2)).map (fun p => p.1)
+  else violatedH h
 
 /-! ### the writer's tree -/
 
@@ -1282,14 +1358,17 @@ def applyAllH (ms : List HMutation) (h : H5) : H5 := ms.foldl (fun d m => applyH
 structure H5Obs where
   isBase : Bool
   verdict : Verdict3
+  /-- the `format_version` argument the validator was called with -/
+  fv : FV := .default
   deriving Repr
 
 open Codec in
+/-- a written (2.1) file must be reported valid under every spelling that requests 2.1 -/
 def holdsH5 (h : H5) (o : H5Obs) : Verdict :=
   allV [
-    chk "written_valid" (!o.isBase || o.verdict == .valid),
-    chk "checked_conjunct_accepted" (checkedH h || o.verdict != .valid),
-    chk "corrupt_rejected" (!(corruptH h) || o.verdict != .valid) ]
+    chk "written_valid" (!o.isBase || o.fv.two0 || o.verdict == .valid),
+    chk "checked_conjunct_accepted" (checkedHAs o.fv h || o.verdict != .valid),
+    chk "corrupt_rejected" (!(corruptHAs o.fv h) || o.verdict != .valid) ]
 
 /-! ## JSON glue (untrusted by the theorems) -/
 open Codec
@@ -1496,9 +1575,15 @@ def handleH5 (req : Json) : R Json := do
       let base ← asH5 b
       let ms ← listF asHMutation req "muts"
       pure (sameTree (applyAllH ms base) tree)
-  let mv := validateH5 dateOk tree
-  let ml := reportLinesH5 dateOk tree
-  let h := holdsH5 tree { isBase, verdict }
+  let fv : FV := match optFld req "fv" with
+    | some (.str "2.1") => .v21
+    | some (.str "2.1.0") => .v210
+    | some (.str "2.0") => .v20
+    | some (.str "2.0.0") => .v200
+    | _ => .default
+  let mv := validateH5As dateOk fv tree
+  let ml := reportLinesH5As dateOk fv tree
+  let h := holdsH5 tree { isBase, verdict, fv }
   let linesAgree := match nlines with
     | some n => mv == .crash || n == ml
     | none => true
@@ -1514,7 +1599,7 @@ def handleH5 (req : Json) : R Json := do
     (if linesAgree then [] else ["report_lines"]) ++ (if writerOk then [] else ["writer_invariants"])
   pure (Json.mkObj (verdictToJson h ++ [("agree", .bool agree), ("differs", strsToJson what),
     ("model", Json.mkObj [("verdict", .str mv.name), ("nlines", toJson ml), ("exit", toJson (exitStatus mv)),
-      ("corrupt", .bool (corruptH tree)), ("violated", strsToJson (violatedH tree))])]))
+      ("corrupt", .bool (corruptHAs fv tree)), ("violated", strsToJson (violatedHAs fv tree))])]))
 
 /-- request kinds: {"op":"json", …} and {"op":"h5", …} -/
 def handle (req : Json) : R Json := do
